@@ -14,7 +14,44 @@ HARNESSES = [
     dict(name="sort_match", file="sort_match.c", label="bounded(files<=3, fixed 5-line sort file)", timeout=900,
          fp={"get_filename": "stub_get_filename"},
          cases=[dict(id="n%d" % n, defines={"N": n}, unwind=50, tier="quick") for n in (1, 2, 3)]),
-    dict(name="flags_decode", file="flags_decode.c", label="bounded(all keyword subsets x glob variants, 2 orders)",
-         timeout=300, fp={"get_filename": "stub_get_filename"},
-         cases=[dict(id="part%d" % p, defines={"PART": p}, unwind=170, tier="quick") for p in (0, 1, 2)]),
+    dict(name="flags_decode", file="flags_decode.c",
+         label="bounded(all 16 keyword subsets x 5 glob variants, 2 orders)",
+         timeout=600, object_bits=12, fp={"get_filename": "stub_get_filename"},
+         cases=[dict(id="g%d_m%d_%d" % (g, lo, lo + 3), defines={"PART": g, "MLO": lo, "MHI": lo + 3},
+                     unwind=170, tier="quick")
+                for g in range(5) for lo in (0, 4, 8, 12)] +
+               [dict(id="g%d_m%d_%d_v4" % (g, lo, lo + 3),
+                     defines={"PART": g, "MLO": lo, "MHI": lo + 3, "VARIANTS": 4},
+                     unwind=170, tier="thorough",
+                     label="bounded(all 16 keyword subsets x 5 glob variants, 4 orders)")
+                for g in range(5) for lo in (0, 4, 8, 12)] +
+               [dict(id="malformed", defines={"PART": 10}, unwind=170, tier="quick")]),
+    # loops=["pack_file"] / ["write_file"] (rows exist in contracts/loops/C17.tbl)
+    # once annotate.py places `do` clauses after the `do` keyword; until then
+    # the copy loop is unwound against a splice contract that ends the input
+    # after SPLICE_MAX transfers
+    dict(name="pack_file", file="pack_file.c", label="bounded(splice calls<=3)", timeout=120,
+         fp={"flush": "stub_flush", "destroy": "stub_destroy"},
+         cases=[dict(id="all", defines={"SPLICE_MAX": 3}, unwind=4, tier="quick")]),
+    dict(name="write_file", file="write_file.c", label="bounded(splice calls<=3)", timeout=120,
+         fp={"flush": "stub_flush", "destroy": "stub_destroy", "open_file_ro": "stub_open_file_ro"},
+         cases=[dict(id="all", defines={"SPLICE_MAX": 3}, unwind=4, tier="quick")]),
+    dict(name="bp_process_block", file="bp_process_block.c", label="bounded(block size 4096)", timeout=120,
+         fp={"process_block:do_block": "stub_compress", "do_block": "stub_do_block",
+             "read_at": "stub_read_at", "*": "stub_unreachable_destroy"},
+         cases=[dict(id="bs4096", defines={"BS": 4096}, tier="quick")]),
+    dict(name="bp_frontend", file="bp_frontend.c", label="bounded(block size 4096)", timeout=120,
+         fp={"submit": "stub_submit", "get_status": "stub_get_status"}, malloc_fail=True, unwind=4,
+         # `flags & ~SQFS_BLK_USER_SETTABLE_FLAGS`: int -> unsigned conversion of an
+         # enum complement, well defined and intended
+         nochecks=["--conversion-check"],
+         cases=[dict(id="begin", defines={"OP": 0, "BS": 4096}, tier="quick"),
+                dict(id="end_cur1", defines={"OP": 1, "HAVE_CUR": 1, "BS": 4096}, tier="quick"),
+                dict(id="end_cur0", defines={"OP": 1, "HAVE_CUR": 0, "BS": 4096}, tier="quick"),
+                dict(id="append_cur1_bs256", defines={"OP": 2, "HAVE_CUR": 1, "BS": 256}, tier="quick",
+                     label="bounded(block size 256)"),
+                dict(id="append_cur0_bs256", defines={"OP": 2, "HAVE_CUR": 0, "BS": 256}, tier="quick",
+                     label="bounded(block size 256)"),
+                dict(id="append_cur1", defines={"OP": 2, "HAVE_CUR": 1, "BS": 4096}, tier="thorough", timeout=900),
+                dict(id="append_cur0", defines={"OP": 2, "HAVE_CUR": 0, "BS": 4096}, tier="thorough", timeout=900)]),
 ]
